@@ -31,6 +31,8 @@ def top_points(lines, ftype):
             ok = False
         if ok and lines[i - 1].kind == "empty" and l.kind == "empty":
             ok = False      # between two empty lines: the comment legitimately separates them (DESIGN §9)
+        if ok and (l.kind in ("lbrace", "raw") or lines[i - 1].kind in ("raw", "funcsig", "tbhead")):
+            ok = False      # between a head and its brace: not a point between two definitions
         if ok:
             pts.append(i)
         if in_multi:
@@ -137,6 +139,19 @@ def run(tier, seed):
         pre = norm.preamble(".c", "test.c")
         files.append({"ftype": ".c", "fname": "test.c", "pre": pre, "lines": rp.lines, "ids": ids,
                       "text": norm.render(pre + rp.lines)})
+    # carriers with something between a function head and its brace (a directive pair, a define, a comment), placed so
+    # that the file's running line count crosses 25 around them once a header or a comment line is added
+    for base in [f for f in files if f["ftype"] == ".c" and sum(1 for l in f["lines"] if l.kind == "funcsig") >= 1][:6]:
+        lines = base["lines"]
+        for label, seps in (("ifdef-pair", ["#ifdef FT_DEBUG", "#endif"]), ("define", ["#define SEP 1"]), ("comment", ["// body follows"])):
+            new = []
+            for i, l in enumerate(lines):
+                if l.kind == "lbrace" and l.depth == 0 and i > 0 and lines[i - 1].kind == "funcsig":
+                    new += [norm.Line([norm.P("raw", t)], "raw") for t in seps]
+                new.append(l)
+            # pad with prototypes so that the separators sit around line 25 of the file with the header
+            files.append({"ftype": ".c", "fname": base["fname"], "pre": base["pre"], "lines": new, "ids": base["ids"] + ("sep:" + label,),
+                          "text": norm.render(base["pre"] + new)})
     tasks = []
     for f in files:
         nfuncs = sum(1 for l in f["lines"] if l.kind == "funcsig")
